@@ -29,7 +29,8 @@ func init() {
 			"DEL-HOLE: the boundary polygon is the edges of collected triangles that no OTHER collected triangle has in either direction (truth table over all orderings of four ids), over all three sides of every " +
 			"collected triangle; every collected triangle is deleted; one triangle {edge, p} is stored per boundary edge. DEL-SUPER: the starting triangle is the appended enclosing vertices; after the last " +
 			"insertion a triangle is deleted exactly when one of its three ids is ≥ len(input). DEL-INSERT: every input point is inserted. DEL-VERT: position i = (input[i].x, 0, input[i].y) copied from the " +
-			"final version of the list the ids refer to, indices = the three different ids of every triangle. DEL-DEP: the bounding box behind the enclosing triangle reads both coordinates of every input point.",
+			"final version of the list the ids refer to, indices = the three different ids of every triangle. DEL-INPUT: nothing stores into the input list (its appended / sub-sliced versions, its working copies) and no call that can write or " +
+			"permute a slice (sort.Sort, sort.Slice, slices.Sort*, copy into it, a repository function that stores through its slice parameter) receives it on any path, in the pipeline and in both mesh builders. DEL-DEP: the bounding box behind the enclosing triangle reads both coordinates of every input point.",
 		Assumptions: []string{
 			"real arithmetic (no rounding); the input is in general position (no three points collinear, no four cocircular, ≥ 3 points), so orientation and in-circle determinants are never 0 and the bounding box of the input has positive width and height",
 			"the rules are necessary conditions only: that the enclosing triangle really encloses every input (its size is a guess in the source), that holes are star-shaped, and the Delaunay / non-overlap property of the result are NOT decided",
@@ -153,6 +154,7 @@ func run(c *props.Ctx) {
 	}
 	R.Floor("DEL-SUPER", 2)
 	R.Floor("DEL-HOLE", 2)
+	R.Floor("DEL-INPUT", 2)
 	if os.Getenv("C20_DEBUG") != "" {
 		for _, o := range R.Obs {
 			fmt.Printf("  [%s] %-13s %-50s %s %s\n", o.Verdict, o.Rule, o.Construct, o.Msg, fmt.Sprint(o.Facts))
@@ -223,6 +225,9 @@ func (k *K) pipeline(r *rec, g *ssa.Function, preset func(pp *pipe, args []c17.V
 			pp.ruleInsert()
 		}
 	}
+	if preset == nil {
+		k.ruleInput(r, pp.sub("input"), pp.pos, pp.res, pp.inputLike, nil)
+	}
 	return pp
 }
 
@@ -244,6 +249,7 @@ var controlRule = map[string]string{
 	"Super":    "DEL-SUPER",
 	"Boundary": "DEL-HOLE",
 	"Mesh":     "DEL-VERT",
+	"Input":    "DEL-INPUT",
 }
 
 func (k *K) control(fn *ssa.Function, W int, WKnown bool) {
@@ -282,7 +288,7 @@ func (k *K) control(fn *ssa.Function, W int, WKnown bool) {
 			pp.fl = buildFlow(pp.res)
 			pp.ruleBoundary()
 		}
-	case "Mesh":
+	case "Mesh", "Input":
 		k.vert(r, fn)
 	default:
 		k.c.R.Note("control %s is of no known kind", fn.Name())
